@@ -157,7 +157,7 @@ type idmModel struct {
 
 func newIdmModel() *idmModel {
 	return &idmModel{
-		groups: map[string]int{"root": 0}, users: map[string][2]int{"root": {0, 0}},
+		groups: map[string]int{idmAdminGroup: 0}, users: map[string][2]int{idmAdminUser: {0, 0}},
 		usedGids: map[int]bool{0: true}, usedUids: map[int]bool{0: true},
 	}
 }
@@ -380,7 +380,26 @@ func adminAnomaly(out string) *sim.Violation {
 	return &sim.Violation{Prop: "C15", Class: "isadmin", Sig: sig, Msg: fmt.Sprintf("%q: IsAdmin must be %s", out, want)}
 }
 
-var idmNames = []string{"root", "g1", "g2", "u1", "u2", "x"} //nolint:gochecknoglobals // pool.
+// The name pool and the administrator's names of the run in progress (set at the start of every run, on the
+// main goroutine; clients only see operations already built from them).
+var (
+	idmNames      = []string{"root", "g1", "g2", "u1", "u2", "x"} //nolint:gochecknoglobals // pool.
+	idmAdminUser  = "root"                                        //nolint:gochecknoglobals // see above.
+	idmAdminGroup = "root"                                        //nolint:gochecknoglobals // see above.
+)
+
+// idmSetOSType selects the documented names of the administrator for the OS type emulated in this run.
+func idmSetOSType(ost avfs.OSType) {
+	if ost == avfs.OsWindows {
+		idmAdminUser, idmAdminGroup = "ContainerAdministrator", "Administrators"
+		idmNames = []string{idmAdminUser, idmAdminGroup, "g1", "g2", "u1", "u2", "x"}
+
+		return
+	}
+
+	idmAdminUser, idmAdminGroup = "root", "root"
+	idmNames = []string{"root", "g1", "g2", "u1", "u2", "x"}
+}
 
 func genIdmOp(t *sim.Tape, ids []int, noAdminGroup bool) idmOp {
 	k := t.Weighted([]int{4, 5, 3, 3, 2, 2, 2, 2})
@@ -392,7 +411,7 @@ func genIdmOp(t *sim.Tape, ids []int, noAdminGroup bool) idmOp {
 		o.Name = t.Pick(idmNames)
 		o.Grp = t.Pick(idmNames)
 
-		if noAdminGroup && o.Grp == "root" {
+		if noAdminGroup && o.Grp == idmAdminGroup {
 			o.Grp = "g1"
 		}
 	case "LookupGroupId", "LookupUserId":
@@ -418,7 +437,17 @@ func (p C15) Run(c *sim.Ctx, t *sim.Tape) sim.RunResult {
 	// known finding (IsAdmin for members of the administrator group): 90% of the runs stay clear of it.
 	_, kn := c.Known["C15|memidm IsAdmin=true for a non-administrator user whose primary group is the administrator group"]
 	filtered := kn && !t.Chance(100)
-	idm := memidm.NewWithOptions(&memidm.Options{OSType: avfs.OsLinux})
+	// a Windows-typed identity manager (other names for the administrator) where the build can emulate it.
+	ost := avfs.OsLinux
+	if avfs.BuildFeatures()&avfs.FeatSetOSType != 0 && t.Chance(300) {
+		ost = avfs.OsWindows
+
+		c.Count("windows_typed_runs", 1)
+	}
+
+	idmSetOSType(ost)
+
+	idm := memidm.NewWithOptions(&memidm.Options{OSType: ost})
 	ids := []int{0, 1, 999, 1000, 1001, 1002, 1003, 1004, 1005, 1006}
 
 	if !concurrent {
